@@ -244,6 +244,14 @@ func C08(p *core.Program, r *core.Report) {
 				if !reaches(st, dc) {
 					return
 				}
+				// the list walked is the record's OLD parts: if it is read from the record's Parts field, the read
+				// must come before this store
+				if ld, isLd := walked.(*ssa.UnOp); isLd && core.IsField(ld.X, storagePkg, "BundleItem", "Parts") && core.SameLoad(ld, loadOfAddr(st.Addr)) || isLoadOfSameField(walked, st.Addr) {
+					if wl, ok := walked.(ssa.Instruction); ok && !core.MustPassBefore(st, func(i ssa.Instruction) bool { return i == wl }) {
+						okAlias = false
+						why = "the list walked to remove the superseded files is read from the record after its Parts were replaced (" + p.Pos(st.Pos()) + "): the new part's file is removed, the fragments' files stay"
+					}
+				}
 				if sharesBacking(st.Val, func(v ssa.Value) bool { return v == walked || core.SameLoad(v, walked) }, 0) {
 					okAlias = false
 					why = "the record's Parts are rewritten in place (" + p.Pos(st.Pos()) + ") over the backing array of the list that is then walked to remove the superseded files"
@@ -315,6 +323,7 @@ func C08(p *core.Program, r *core.Report) {
 	}
 
 	checkPartFileLocking(p, r, mutex)
+	checkWriteErrorsNotDropped(p, r)
 	r.Analysed["error_returning_functions_checked"] = checkErrorsNotSwallowedTol(p, r, map[string]bool{
 		"pkg/storage.BundlePart.deleteBundle": true, // best-effort removal of a part file: logged, an orphaned file is harmless
 		"pkg/storage.Store.QueryId":           true, // "not found" is an answer (nothing to delete / insert instead of update)
@@ -398,6 +407,58 @@ func isBoolPhiOfConsts(v ssa.Value) bool {
 	return true
 }
 
+// checkWriteErrorsNotDropped: what Push acknowledges must be on disk. On the
+// path that writes a part file, the result of every call that can report a
+// failed write — Write*, bufio.Writer.Flush, (*os.File).Close / Sync of a
+// file opened for writing — is used (returned or tested); a discarded Flush
+// error turns "no space left on device" into a successful Push whose part can
+// never be loaded, and the duplicate test then refuses to store it again.
+func checkWriteErrorsNotDropped(p *core.Program, r *core.Report) {
+	n := 0
+	for _, fn := range p.RepoFuncs() {
+		if fn.Pkg != p.Pkg(storagePkg) {
+			continue
+		}
+		top := topFunc(fn)
+		// only functions (and their closures) that write a bundle out
+		writes := false
+		core.EachInstrDeep(top, func(_ *ssa.Function, in ssa.Instruction) {
+			if c, ok := in.(ssa.CallInstruction); ok && core.NameIs(core.CalleeName(c), bp7+".Bundle.WriteBundle") {
+				writes = true
+			}
+		})
+		if !writes {
+			continue
+		}
+		core.EachInstr(fn, func(in ssa.Instruction) {
+			c, ok := in.(*ssa.Call)
+			if !ok {
+				return
+			}
+			name := core.CalleeName(c)
+			switch name {
+			case "bufio.Writer.Flush", "os.File.Close", "os.File.Sync", "os.File.Write", "bufio.Writer.Write":
+			default:
+				if !core.NameIs(name, bp7+".Bundle.WriteBundle") {
+					return
+				}
+			}
+			n++
+			used := false
+			if refs := c.Referrers(); refs != nil {
+				for _, ref := range *refs {
+					if _, isDbg := ref.(*ssa.DebugRef); !isDbg {
+						used = true
+					}
+				}
+			}
+			r.Check(used, fmt.Sprintf("write-errors/%s/%s", fname(fn), shortName(name)), "on the path that writes a part file, the error of every call that can report a failed write (Write, Flush, Close, Sync) is returned or tested, not discarded", p.Pos(c.Pos()), "", "the result of "+shortName(name)+" is discarded: a failed write (full disk) is acknowledged as stored, the part can never be loaded and a second push of the fragment is refused as a duplicate")
+		})
+	}
+	r.Count("write-side calls on the part-file path", n)
+	r.Min("write-side calls on the part-file path", 1)
+}
+
 // checkPartFileLocking: see the comment inside.
 func checkPartFileLocking(p *core.Program, r *core.Report, mutex string) {
 	if mutex == "" {
@@ -425,4 +486,17 @@ func checkPartFileLocking(p *core.Program, r *core.Report, mutex string) {
 		r.Min("part-file operations in Store methods", 4)
 	}
 
+}
+
+func loadOfAddr(addr ssa.Value) ssa.Value { return nil }
+
+// isLoadOfSameField: v is a load *(&x.f) and addr is &x.f of the same base and field.
+func isLoadOfSameField(v ssa.Value, addr ssa.Value) bool {
+	ld, ok := v.(*ssa.UnOp)
+	if !ok || ld.Op != token.MUL {
+		return false
+	}
+	fa1, ok1 := ld.X.(*ssa.FieldAddr)
+	fa2, ok2 := addr.(*ssa.FieldAddr)
+	return ok1 && ok2 && fa1.X == fa2.X && fa1.Field == fa2.Field
 }
